@@ -241,18 +241,26 @@ def r10_table(rule, root=None):
                 else:
                     miss = sorted(set(directed_edges()) - set(got))
                     rule.bad("build.rs|enumeration", "the generator's loops visit %d (start, end) pairs; the 24 directed edges of a cell are expected once each (missing: %s)" % (len(got), miss[:4]), A.where(BUILD, lp))
-                # the guard, for every mask
+                # the guard, for every mask: evaluated where it stands, so that lets naming its parts are honoured
                 wrong = None
                 for i in (0, 1, 2, 0x55, 0xAA, 0x0F, 0xF0, 0x69, 0x96, 0x80, 0x7F, 0xFE, 0xFF, 0x3C, 0x11):
-                    for s, e in directed_edges():
-                        try:
-                            c = Fold([BUILD], root, {"i": i, "start": s, "end": e}).ev(guard["cond"])
-                        except (Stop, Unreachable) as ex:
-                            wrong = ("fold", str(ex))
-                            break
-                        w = bool(i >> s & 1) and not bool(i >> e & 1)
+                    seen_g = []
+
+                    def ghook(node, interp, seen_g=seen_g):
+                        if node is guard:
+                            seen_g.append((interp.env.get("start"), interp.env.get("end"), interp.ev(guard["cond"])))
+                            return None
+                        return NotImplemented
+
+                    try:
+                        Fold([BUILD], root, {"i": i}, ghook).ev(lp)
+                    except (Stop, Unreachable) as ex:
+                        wrong = ("fold", str(ex))
+                        break
+                    for s_, e_, c in seen_g:
+                        w = bool(i >> s_ & 1) and not bool(i >> e_ & 1)
                         if c != w:
-                            wrong = (i, s, e, c)
+                            wrong = (i, s_, e_, c)
                             break
                     if wrong:
                         break
@@ -316,15 +324,43 @@ def _layout(rule, root):
         rule.lost(str(e))
         return
     t = A.ftxt(lf["body"])
-    m = t.fmatch("let$I=self.octree.verts.len();self.octree.verts.extend($V);self.octree.verts.extend($X.into_iter().map(|$P|CellVertex{pos:cell.pos($P)}));Cell::Leaf(Leaf{mask:mask,index:$I})")
-    if m is None:
-        m = t.fmatch("let$I=self.octree.verts.len();self.octree.verts.extend($V);self.octree.verts.extend($X.into_iter().map(|$P|CellVertex{pos:cell.pos($P)}));")
-        if m is not None and t.fmatch("Cell::Leaf(Leaf{mask:mask,index:%s})" % m["$I"]) is None:
-            m = None
-    if m is None:
-        rule.bad("leaf|layout", "OctreeBuilder::leaf must take `index` before appending, append the cell's vertices first and the crossing positions after them, and return Leaf { mask, index }", A.where(lf))
+    # `let index = <vertex array>.len()`, then every append to that array in order (a chained extend is its parts)
+    idx = [l for l in A.find(lf["body"], "Let") if l.get("init") is not None and re.fullmatch(r"self\.octree\.verts\.len\(\)", str(A.ftxt(l["init"]))) and A.binding_name(l["pat"])]
+    if len(idx) != 1:
+        rule.bad("leaf|layout", "OctreeBuilder::leaf must take `index = self.octree.verts.len()` once, before appending", A.where(lf))
+        return
+    I = A.binding_name(idx[0]["pat"])
+
+    def parts(e):
+        e = A.strip(e)
+        if e.get("k") == "MethodCall" and e["method"] == "chain" and len(e["args"]) == 1:
+            return parts(e["recv"]) + parts(e["args"][0])
+        return [e]
+
+    appended = []
+    early = False
+    for c in A.find(lf["body"], "MethodCall"):
+        if c["method"] in ("extend", "push", "extend_from_slice") and str(A.ftxt(c["recv"])) == "self.octree.verts" and c["args"]:
+            if c.get("ln", 0) < idx[0]["ln"]:
+                early = True
+            appended += parts(c["args"][0])
+    srcs = [str(A.ftxt(x)) for x in appended]
+
+    def root_name(e):
+        e = A.strip(e)
+        while e.get("k") == "MethodCall":
+            e = A.strip(e["recv"])
+        return A.ident(e)
+
+    V = root_name(appended[0]) if appended else None
+    X = root_name(appended[1]) if len(appended) > 1 else None
+    ok_layout = (not early and len(appended) == 2 and V and X and V != X and "cell.pos(" in srcs[1] and "CellVertex" in srcs[1]
+                 and t.fmatch("Cell::Leaf(Leaf{mask:mask,index:%s})" % I) is not None)
+    if not ok_layout:
+        rule.bad("leaf|layout", "OctreeBuilder::leaf must take `index` before appending, append the cell's vertices first and the crossing positions after them, and return Leaf { mask, index } (appends found: %s)" % [x[:40] for x in srcs], A.where(lf))
         return
     rule.ok("leaf: index taken before appending; cell vertices first, crossings after", file=OCT, line=lf["ln"])
+    m = {"$V": V, "$X": X}
     V, X = m["$V"], m["$X"]
     # the cell vertices: one push per entry of the table's list, in its order
     loops = [f for f in A.find(lf["body"], "For") if "CELL_TO_VERT_TO_EDGES[mask.index()]" in A.ftxt(f["iter"])]
@@ -440,38 +476,61 @@ def r11_cell_geometry(rule, root=None):
             return -1 if neg else 1
         return None
 
-    # child bounds
-    ax = axis_param(ch)
-    pname = [A.binding_name(p["pat"]) for p in ch["sig"]["inputs"] if "pat" in p]
-    corner = pname[0] if pname else "corner"
-    got = {}
-    for leaf, cs in closure_cases(ch):
-        s = norm_cond(cs, corner, ax)
-        if s is not None:
-            got[s] = leaf
-    b = r"self\.bounds\[%s\.index\(\)\]" % re.escape(ax or "axis")
-    up = re.fullmatch(r"Interval::new\(%s\.midpoint\(\),%s\.upper\(\)\)" % (b, b), got.get(1, ""))
-    lo = re.fullmatch(r"Interval::new\(%s\.lower\(\),%s\.midpoint\(\)\)" % (b, b), got.get(-1, ""))
-    for s, mm, what in ((1, up, "a child on the upper side of an axis (corner bit set) spans [midpoint, upper] of the parent on that axis"), (-1, lo, "a child on the lower side spans [lower, midpoint]")):
-        if mm:
-            rule.ok(what, file=CELL, line=ch["ln"])
-        else:
-            rule.bad("CellBounds::child|%s" % ("upper" if s == 1 else "lower"), "%s; found `%s`" % (what, got.get(s)), A.where(ch))
-    # corner position
-    ax = axis_param(co)
-    pname = [A.binding_name(p["pat"]) for p in co["sig"]["inputs"] if "pat" in p]
-    corner = pname[0] if pname else "corner"
-    got = {}
-    for leaf, cs in closure_cases(co):
-        s = norm_cond(cs, corner, ax)
-        if s is not None:
-            got[s] = leaf
-    b = "self.bounds[%s.index()]" % (ax or "axis")
-    for s, want, what in ((1, b + ".upper()", "a corner with an axis bit set sits at the upper bound on that axis"), (-1, b + ".lower()", "a corner without the bit sits at the lower bound")):
-        if got.get(s) == want:
-            rule.ok(what, file=CELL, line=co["ln"])
-        else:
-            rule.bad("CellBounds::corner|%s" % ("upper" if s == 1 else "lower"), "%s; found `%s`" % (what, got.get(s)), A.where(co))
+    # child bounds and corner positions, by meaning: the per-axis closure is folded for both values of
+    # `corner & axis`, the parent's interval on that axis standing for itself
+    def per_axis(fn, bit):
+        clos = [c for c in A.find(fn["body"], "Closure")]
+        if len(clos) != 1:
+            raise Stop("expected one per-axis closure")
+        clo = clos[0]
+        ps = clo.get("inputs", clo.get("params", []))
+        ax = A.binding_name(ps[0]) if len(ps) == 1 else None
+        pname = [A.binding_name(p["pat"]) for p in fn["sig"]["inputs"] if "pat" in p]
+        corner = pname[0] if pname else "corner"
+
+        def hook(node, interp):
+            k = node.get("k")
+            if k == "Binary" and node["op"] == "&":
+                names = {A.ident(A.strip(node["left"])), A.ident(A.strip(node["right"]))}
+                if names == {corner, ax}:
+                    return bit
+            if k == "Index":
+                t_ = str(A.ftxt(node))
+                if t_ in ("self.bounds[%s.index()]" % ax, "self[%s]" % ax) or (t_.startswith("self.bounds[") and interp.env.get(t_[len("self.bounds["):-1]) == "AXIS-INDEX"):
+                    return "PARENT"
+            if k == "MethodCall":
+                if node["method"] == "index" and A.ident(A.strip(node["recv"])) == ax and not node["args"]:
+                    return "AXIS-INDEX"
+                if node["method"] in ("lower", "upper", "midpoint") and not node["args"]:
+                    r_ = interp.ev(node["recv"])
+                    if r_ == "PARENT":
+                        return node["method"]
+                    raise Stop("`.%s()` of something that is not the parent's interval on this axis" % node["method"])
+            if k == "Call" and (A.path_segs(node["func"]) or [])[-2:] == ["Interval", "new"] and len(node["args"]) == 2:
+                return ("Interval", interp.ev(node["args"][0]), interp.ev(node["args"][1]))
+            if k == "Unary" and node.get("op") == "!":
+                v_ = interp.ev(node["e"])
+                if isinstance(v_, bool):
+                    return not v_
+            return NotImplemented
+
+        f = Fold([TYPES], root, {ax: "AXIS", corner: "CORNER"}, hook)
+        return f.ev(clo["body"])
+
+    for fn_, label, want in ((ch, "CellBounds::child", {True: ("Interval", "midpoint", "upper"), False: ("Interval", "lower", "midpoint")}),
+                             (co, "CellBounds::corner", {True: "upper", False: "lower"})):
+        for bit in (True, False):
+            side = "upper" if bit else "lower"
+            try:
+                got = per_axis(fn_, bit)
+            except (Stop, Unreachable, TypeError, KeyError) as ex:
+                rule.bad("%s|%s|fold" % (label, side), "%s cannot be read for a corner on the %s side: %s" % (label, side, ex), A.where(fn_))
+                continue
+            if got == want[bit]:
+                what = ("a child on the %s side of an axis spans %s of the parent" % (side, "[midpoint, upper]" if bit else "[lower, midpoint]")) if label.endswith("child") else ("a corner %s the axis bit sits at the %s bound" % ("with" if bit else "without", side))
+                rule.ok(what, file=CELL, line=fn_["ln"])
+            else:
+                rule.bad("%s|%s" % (label, side), "%s: for a corner on the %s side of an axis the result is %s; expected %s of the parent's interval on that axis" % (label, side, got, want[bit]), A.where(fn_))
     # Cell::corner
     cases = {}
     for leaf, cs in A.result_cases(A.inline_lets_deep(cc["body"])):
